@@ -57,16 +57,16 @@ From Gecs Require Import Query World Borrow Run WorldInv LoopFacts HistRun.
 (** One storage, every sequence of creations (with or without growth), create_within_capacity,
     destructions with any key of either kind, and transitions that leave slots and dense handles
     alone: a handle that has left the dense array never returns and is rejected by every later lookup. *)
-Theorem C01_stale_forever_storage : forall cfg s1 s2 s3 e, wrapping cfg = false -> sreach true cfg s1 -> key32 e ->
-  e ∈ ents s1 -> esteps true cfg s1 s2 -> e ∉ ents s2 -> esteps true cfg s2 s3 ->
+Theorem C01_stale_forever_storage : forall cfg s1 s2 s3 e, wrapping cfg = false -> sreach true true cfg s1 -> key32 e ->
+  e ∈ ents s1 -> esteps true true cfg s1 s2 -> e ∉ ents s2 -> esteps true true cfg s2 s3 ->
   e ∉ ents s3 /\ resolve_entity cfg s3 e = ROk None.
-Proof. exact (stale_forever true). Qed.
+Proof. exact (stale_forever true true). Qed.
 
 (** The run language: every operation moves every storage of every persisting world by such transitions. *)
 Theorem C01_every_operation_is_a_sequence_of_elementary_transitions : forall cfg d qs st o,
   wf_decl d -> wf_op d o -> RInv d st -> hist_ok_step st o = true ->
-  match step cfg d qs st o with Some (st', _) => ltrans true cfg (worlds st) (worlds st') | None => True end.
-Proof. intros. apply (step_trans true); try done. by destruct o. Qed.
+  match step cfg d qs st o with Some (st', _) => ltrans true true cfg (worlds st) (worlds st') | None => True end.
+Proof. intros. apply (step_trans true true); try done. apply flags_ok_true. Qed.
 
 (** Whole histories of the run language (several worlds, clones, drops, forged and foreign keys,
     queries, ecs_iter_destroy!, panics): stale forever. *)
